@@ -171,6 +171,21 @@ def check_type(ctx, spec, T, witnesses, pair):
                 break
         if name == "REC" and cR not in rec_models(T):
             ctx.fail("C07/REC-deviates-from-documented-rule", spec, f"REC: {show(T)} -> {show(R)}, documented rule gives {rec_model(T)}")
+    # every ordered pair (A, B): where A leaves T alone the pair is B alone (judged above); where A changed T, B is applied to A's
+    # result and the values T admitted must still be admitted
+    for a_name, RA in list(results.items()):
+        if a_name not in SINGLE or canon(RA) == canon(T):
+            continue
+        for b_name in SINGLE:
+            try:
+                RB = RW[b_name].rewrite(RA)
+            except Exception as e:
+                ctx.fail(f"C07/chain-raises:{type(e).__name__}", spec + [[a_name, b_name]], f"{b_name} after {a_name} on {show(T)}: {e!r}")
+                continue
+            for v in vals_:
+                if not conforms(v, RB):
+                    ctx.fail("C07/chain-narrows", spec + [[a_name, b_name]], f"{b_name} after {a_name}: {show(T)} -> {show(RA)} -> {show(RB)} no longer admits {v!r}")
+                    break
     # chains are sequential compositions
     for cname, parts in (("DEFAULT", DEFAULT_PARTS), ("CONFIG", DEFAULT_PARTS), ("PAIR", list(pair))):
         try:
